@@ -9,6 +9,8 @@ import UtilModel.CCall.Monitors
 import UtilModel.Conc.Monitors
 import UtilModel.Treiber.Monitors
 import UtilModel.LinkedList.Monitors
+import UtilModel.Broadcast.Monitors
+import UtilModel.CContainer.Monitors
 /-! Registry of the models the driver can decide histories for. One line per model. -/
 namespace UtilModel
 
@@ -27,7 +29,9 @@ def registry : List Entry := [
   mkEntry "ccall" CCall.model CCall.Obs.parse [MonEntry.ofMonitor "C17" CCall.monC17],
   mkEntryH "conc" Conc.model Conc.Obs.parse [MonEntry.ofMonitor "C18" Conc.monC18] (cap := 20000),
   mkEntry "lifo" Treiber.model Treiber.Obs.parse [MonEntry.ofMonitor "C12" Treiber.monC12] (cap := 1200),
-  mkEntry "linkedlist" LinkedList.model LinkedList.parseObs [MonEntry.ofMonitor "C12" LinkedList.monC12] (cap := 2000)
+  mkEntry "linkedlist" LinkedList.model LinkedList.parseObs [MonEntry.ofMonitor "C12" LinkedList.monC12] (cap := 2000),
+  mkEntryH "broadcast" Broadcast.model Broadcast.Obs.parse [MonEntry.ofMonitor "C03" Broadcast.monC03],
+  mkEntryH "ccontainer" CContainer.model CContainer.Obs.parse [MonEntry.ofMonitor "C15" CContainer.monC15]
 ]
 
 end UtilModel
